@@ -160,8 +160,8 @@ impl Check for C10 {
                     let valid = CATS.contains(&name.as_str());
                     for (k, xsd) in [("p", false), ("P", false), ("p", true)] {
                         for pat in [format!("\\{}{{{}}}", k, name), format!("[\\{}{{{}}}]", k, name), format!("\\{}{{Is{}}}", k, name)] {
-                            // Is<name> is a block lookup: no block has a one- to three-letter name
-                            let want_ok = valid && !pat.contains("{Is");
+                            // Is<name> is a block lookup (Lao, Mro, Vai, NKo are blocks)
+                            let want_ok = if pat.contains("{Is") { ucd.known_block(&name) } else { valid };
                             out.inc("states");
                             out.inc("validated");
                             match imp::compile(&pat, "", xsd) {
@@ -174,7 +174,7 @@ impl Check for C10 {
                                     if want_ok { "CategoryRejected" } else { "UnknownNameAccepted" },
                                     if want_ok { "Ok" } else { "Err(Syntax)" },
                                     &format!("{:?}", o.map(|_| ())),
-                                    "a name is accepted iff it is one of the 37 category names",
+                                    "a bare name is accepted iff it is one of the 37 category names, Is<name> iff <name> is a block",
                                 ),
                             }
                         }
@@ -389,6 +389,23 @@ impl Check for C10 {
                         (format!("^[{}-[{}]]$", n, p), x.to_string(), true),
                         (format!("^{}+{}+{}+$", p, n, p), format!("{}{}{}", m, x, m), true),
                     ];
+                    // a negated group with a subtraction: (not A) minus B
+                    for q in ["\\p{Lu}", "\\d", "\\p{IsBasicLatin}", "\\s"] {
+                        for c in [m, x, 'A', '1', ' ', 'a', '\u{e9}', '\u{10FFFF}'] {
+                            if let (Some(in_p), Some(in_q)) = (single(&p, c), single(q, c)) {
+                                cases.push((format!("^[^{}-[{}]]$", p, q), c.to_string(), !in_p && !in_q));
+                                cases.push((format!("^[^a{}-[{}b]]$", p, q), c.to_string(), !(in_p || c == 'a') && !(in_q || c == 'b')));
+                            }
+                        }
+                    }
+                    // the escape under a quantifier before another escape that shares members with it
+                    for q in ["\\d", "\\p{L}", "\\w", "\\p{Lo}", "\\p{Nd}", "\\p{Lu}"] {
+                        if let Some(c) = cands.iter().copied().chain((0xe00u32..0xe80).chain(0x5d0..0x5f0).chain(0x370..0x400).filter_map(char::from_u32)).find(|c| single(&p, *c) == Some(true) && single(q, *c) == Some(true)) {
+                            cases.push((format!("^{}+{}$", p, q), format!("{}{}", c, c), true));
+                            cases.push((format!("^{}*{}$", p, q), c.to_string(), true));
+                            cases.push((format!("{}{{1,2}}{}", p, q), format!("{}{}", c, c), true));
+                        }
+                    }
                     // two complemented escapes in one group: the union of the two complements
                     for q in ["\\P{Lu}", "\\P{Nd}", "\\D", "\\S", "\\W", "\\P{IsBasicLatin}"] {
                         if q == n {
